@@ -491,3 +491,36 @@ def primes_between(lo, hi):
         if k > 1 and all(k % d for d in range(2, int(k ** 0.5) + 1)):
             out.append(k)
     return out
+
+
+# --------------------------------------------------------------------------
+# description invariance: the same crystal with relabelled (left-handed, sheared, permuted) lattice vectors
+# --------------------------------------------------------------------------
+
+def relabel_picks(rng, n=3):
+    """names of gen.UNIMODULAR to use in this run: always at least one with det -1"""
+    neg = [k for k, m in gen.UNIMODULAR.items() if round(np.linalg.det(np.array(m))) == -1]
+    picks = [rng.choice(neg)]
+    rest = [k for k in gen.UNIMODULAR if k not in picks]
+    rng.shuffle(rest)
+    return picks + rest[: n - 1]
+
+
+def relabelled_phonopy(cell, cen, smat, mname, dense=True):
+    """(ph', qmap): Phonopy object of the relabelled description of (cell, supercell matrix smat, centring cen): the same
+    supercell lattice and the same primitive lattice, lattice vectors relabelled by M; qmap maps reduced q-points of
+    the original PRIMITIVE cell to those of the relabelled primitive cell (same Cartesian q)."""
+    from phonopy import Phonopy
+    from phonopy.structure.cells import get_primitive_matrix_by_centring
+
+    M = np.array(gen.UNIMODULAR[mname], dtype=int)
+    Minv = np.rint(np.linalg.inv(M)).astype(int)
+    c2, qmap, smap = gen.relabelled_cell(cell, M)
+    P2 = Minv.T @ get_primitive_matrix_by_centring(cen) @ M.T
+    ph = Phonopy(c2, supercell_matrix=smap(smat), primitive_matrix=P2, log_level=0, store_dense_svecs=dense)
+    return ph, qmap
+
+
+RELABEL_CASES = [("nacl", (2, 2, 2)), ("nacl_prim", (2, 2, 2)), ("zincblende_prim", (2, 2, 2)), ("cscl", (2, 2, 2)), ("bcc", (2, 2, 2)),
+                 ("hcp", (3, 3, 2)), ("wurtzite", (3, 3, 2)), ("triclinic", (2, 2, 2)), ("rutile", (2, 2, 3)), ("fcc", (2, 2, 2)),
+                 ("mono_P", (3, 2, 2)), ("perovskite", (2, 2, 2))]
